@@ -163,13 +163,14 @@ func init() {
 		runDEDUP(c, r, "DEDUP", fixFuncs(c, g, fs))
 		runERRDROP(c, r, "ERRDROP", fixFuncs(c, g, fs))
 		runERRIS(c, r, "ERRIS", fixFuncs(c, g, fs))
+		runHALFADD(c, r, "HALFADD", fixFuncs(c, g, fs))
 		for _, f := range fixFuncs(c, g, fs) {
 			if f.Name() == "Render" {
 				runARGUSE(c, r, "ARGUSE", f)
 			}
 		}
 	}
-	registerFixture(fixtureCheck{Group: "shape", Pkg: "shape/bad", Run: shape, Want: []string{"shape/bad.Join:separator-by-length#1", "shape/bad.JoinConcat:separator-by-length#1", "shape/bad.SameMap:map-equality#1:size", "shape/bad.SameMapLen:map-equality#1:presence", "shape/bad.AsFloat:int,float64", "shape/bad.Terms:term.desc#1", "shape/bad.Render:param#2", "shape/bad.Uniq:test-and-set#1", "shape/bad.TidyAll:loop-error#1", "shape/bad.Swallow:Is#1"}})
+	registerFixture(fixtureCheck{Group: "shape", Pkg: "shape/bad", Run: shape, Want: []string{"shape/bad.Join:separator-by-length#1", "shape/bad.JoinConcat:separator-by-length#1", "shape/bad.SameMap:map-equality#1:size", "shape/bad.SameMapLen:map-equality#1:presence", "shape/bad.AsFloat:int,float64", "shape/bad.Terms:term.desc#1", "shape/bad.Render:param#2", "shape/bad.Uniq:test-and-set#1", "shape/bad.TidyAll:loop-error#1", "shape/bad.Swallow:Is#1", "shape/bad.Nearest:Ceil-half#1", "shape/bad.Nearest:Floor-half#2"}})
 	registerFixture(fixtureCheck{Group: "shape", Pkg: "shape/good", Run: shape})
 	kind := func(c *Ctx, r *Result, key string) {
 		g, fs := c.fixGraph(key)
